@@ -112,11 +112,11 @@ func c18(c *q.Ctx) {
 		c.Check(bad == "", "K3", pk+".LedgerRely", "declares no method handing out the live (pending-inclusive) reader", "-", "offending method: "+bad)
 	}
 	c.WhoCalls("State.CreateXMReader|LedgerAgent.CreateXMReader|CreateXMReader", map[string]string{
-		st + "(*State).GetTimerTx":                               "timer transaction is generated over live state by the producer and re-generated by validators",
-		st + "(*State).queryContractBannedStatus":                "banned-contract probe",
-		"kernel/engines/xuperos::(*Chain).PreExec":               "pre-execution runs over live state by definition",
-		"kernel/engines/xuperos::(*Chain).CreateParaChain*":      "para-chain bootstrap",
-		"kernel/engines/xuperos::*":                              "chain bootstrap: contract manager creation",
+		st + "(*State).GetTimerTx":                                    "timer transaction is generated over live state by the producer and re-generated by validators",
+		st + "(*State).queryContractBannedStatus":                     "banned-contract probe",
+		"kernel/engines/xuperos::(*Chain).PreExec":                    "pre-execution runs over live state by definition",
+		"kernel/engines/xuperos::(*Chain).CreateParaChain*":           "para-chain bootstrap",
+		"kernel/engines/xuperos::*":                                   "chain bootstrap: contract manager creation",
 		"kernel/engines/xuperos/agent::(*LedgerAgent).CreateXMReader": "adapter forwarding to State",
 	}, "only these may read pending state")
 }
